@@ -1,0 +1,35 @@
+//go:build verif
+
+// Contracts for the deductive verification in /verif (govc). This file contains
+// comments only; it is compiled only with -tags verif and declares nothing.
+
+package google
+
+// What Check needs of a parsed CRLSet: the list filed under the issuer's SPKI hash holds
+// non-nil entries with non-nil serial numbers (Parse appends &entry and sets new(big.Int)).
+//@ pred okList(l) = l != nil ==> forall(i, 0, len(l.Entries), l.Entries[i] != nil && l.Entries[i].SerialNumber != nil)
+//@ pred blocked(s, h) = exists(j, 0, len(s.BlockedSPKIs), s.BlockedSPKIs[j] == h)
+//@ pred listOf(s, h) = s.IssuerLists[h]
+// [blocked]/[nolist]/[member] describe Check in terms of string equality with the entries of
+// BlockedSPKIs. The CRLSet format writes those entries in base64 while IssuerLists is keyed
+// by the hex text of the same kind of hash (IssuerList.SPKIHash, "SHA256 of Issuer SPKI"), so
+// "the set blocks this issuer's SPKI" is spec.b64_is_hex32(entry, issuerSPKIHash): clause
+// [defect_blockedspki] states that such a certificate is reported. It FAILS on the code as it
+// is (demonstration in /verif/notes/revocation.md).
+
+//@ func (*CRLSet).Check
+//@   requires crlSet != nil && okList(listOf(crlSet, issuerSPKIHash)) && cert != nil && cert.SerialNumber != nil
+//@   loop 1 invariant forall(j, 0, it, crlSet.BlockedSPKIs[j] != issuerSPKIHash)
+//@   ensures [blocked] blocked(crlSet, issuerSPKIHash) ==> result != nil && fresh(result) && result.SerialNumber == cert.SerialNumber
+//@   ensures [defect_blockedspki] exists(j, 0, len(crlSet.BlockedSPKIs), spec.b64_is_hex32(crlSet.BlockedSPKIs[j], issuerSPKIHash)) ==> result != nil
+//@   ensures [nolist]  !blocked(crlSet, issuerSPKIHash) && listOf(crlSet, issuerSPKIHash) == nil ==> result == nil
+//@   ensures [member]  !blocked(crlSet, issuerSPKIHash) && result != nil ==> listOf(crlSet, issuerSPKIHash) != nil && exists(i, 0, len(listOf(crlSet, issuerSPKIHash).Entries), listOf(crlSet, issuerSPKIHash).Entries[i] == result)
+//@   terminates
+
+// CRLSet framing: a 2-octet little-endian header length, the JSON header, then the body.
+//@ pred hlen(c) = int(uint16(c[0]) | uint16(c[1])<<8)
+//@ func getHeader
+//@   ensures err == nil ==> len(c) >= 2 && len(c) - 2 >= hlen(c) && same(rest, c[2+hlen(c):])
+//@   ensures len(c) < 2 || len(c) - 2 < hlen(c) ==> err != nil
+//@   ensures err != nil ==> rest == nil
+//@   terminates
